@@ -157,6 +157,37 @@ def oracle(ctx):
         for f in fails:
             res.oracle_failures.append(dict(op='e2e', tree=files, impl_output=dict(dry_exit=d['exit'], run_exit=n['exit'], dry_stderr=d['stderr'][-800:], run_stderr=n['stderr'][-800:]),
                                             oracle_expectation=f))
+    # "creates, modifies and deletes nothing" also when there is something to delete or modify: a dry run into the output directory of an
+    # earlier normal run, after one unit was edited so that it no longer converts, one so that it no longer loads, one removed and one
+    # given another [Install] section — the whole sandbox must be byte for byte what it was
+    def rerun(files):
+        base = e2e.fresh_dir()
+        os.makedirs(os.path.join(base, 'src'))
+        e2e.write_tree(base, files)
+        out = os.path.join(base, 'out')
+        e2e.run_binary(['--no-kmsg-log', out], os.path.join(base, 'src'))
+        names = sorted(n for n in files if n.startswith('src/') and '.' in n)
+        edits = [lambda t: t + '[Quadlet]\nNoSuchKey=1\n', lambda t: '[Broken\n' + t, None, lambda t: t + '[Install]\nWantedBy=other.target\nAlias=other-alias.service\n']
+        for i, n in enumerate(names[:4]):
+            p = os.path.join(base, n)
+            if edits[i] is None:
+                os.unlink(p)
+            else:
+                with open(p, 'w') as f:
+                    f.write(edits[i](files[n]))
+        before = e2e.snapshot(base)
+        rc, so, se = e2e.run_binary(['--dry-run', '--no-kmsg-log', out], os.path.join(base, 'src'))
+        after = e2e.snapshot(base)
+        shutil.rmtree(base, ignore_errors=True)
+        return before, after, rc
+    import shutil
+    again = [t for t in trees if sum(1 for n in t if n.startswith('src/')) >= 2][: (60 if ctx.thorough else 20)]
+    for files, (before, after, rc) in zip(again, e2e.pmap(rerun, again)):
+        res.oracle_evals += 1
+        if before != after:
+            delta = {k: (before.get(k), after.get(k)) for k in set(before) | set(after) if before.get(k) != after.get(k)}
+            res.oracle_failures.append(dict(op='e2e', tree=files, impl_output=dict(dry_exit=rc, changed=str(delta)[:600]),
+                                            oracle_expectation='a --dry-run into the output directory of an earlier run (after units were edited, broken or removed) changes nothing on the file system'))
     # known finding KF-C19-1: re-confirmed on its example on every run
     import json as _json2
     for k in ctx.known:
